@@ -6,10 +6,11 @@ from symrun.nums import And, Or, Not, Sym, ExactInt
 META = {
   "functions": ["overlap_add.list", "stft.base wrapper (parameter merge, blk_gen, ola dispatch) in decorator/partial/direct "
                 "styles", "lazy_misc.blocks", "Stream.blocks"],
-  "bounds": {"quick": "size 1..4, hop 1..size, block count m 0..3, every block sample and window value a symbolic real, "
-                      "window kinds none/list/tuple/callable/generator, normalise on/off; reconstruction: size<=4, hop | size, "
-                      "signal length <=8 with a symbolic window constrained only by the constant-overlap-add equations",
-             "thorough": "size 1..6, m 0..4, signal length <=12"},
+  "bounds": {"quick": "size 1..6 (1..4 with a normalised symbolic window), hop 1..size, block count m 0..4, every block sample and "
+                      "window value a symbolic real, window kinds none/list/tuple/callable/generator, normalise on/off; "
+                      "reconstruction: size<=6, hop | size, signal length <=9 with a symbolic window constrained only by the "
+                      "constant-overlap-add equations",
+             "thorough": "size 1..8 (1..5 normalised), m 0..5, reconstruction size<=8, signal length <=12"},
   "outside": "overlap_add.numpy and numpy transforms (numpy absent), hop > size, block streams whose size cannot be detected "
              "(size=None with zero blocks)",
   "stubs": [],
@@ -231,11 +232,11 @@ def h_stft_args(ctx, cfg):
 
 def tasks(tier, seed):
   big = tier == "thorough"
-  S, M = (6, 4) if big else (4, 3)
+  S, M = (8, 5) if big else (6, 4)
   T = []
   for kind in ("none", "list", "tuple", "callable", "gen"):
     for normalize in (False, True):
-      cfg = {"S": S if not (normalize and kind != "none") else min(S, 4), "M": M, "wnd": kind, "normalize": normalize}
+      cfg = {"S": S if not (normalize and kind != "none") else min(S, 4 if not big else 5), "M": M, "wnd": kind, "normalize": normalize}
       if normalize and kind != "none":
         cfg["M"] = 2
         T.append(("h_ola", dict(cfg, wpos=True, M=M)))
@@ -246,13 +247,14 @@ def tasks(tier, seed):
   for dblk, dw in ((1, 0), (-1, 0), (0, 1), (0, -1)):
     T.append(("h_bad_sizes", {"size": 3, "hop": 2, "dblk": dblk, "dw": dw}))
   grid = [(2, 1), (2, 2), (3, 1), (3, 3), (4, 2), (4, 1), (4, 4), (1, 1)]
-  if big: grid += [(6, 3), (6, 2), (5, 1), (5, 5), (6, 1)]
+  grid += [(6, 3), (6, 2), (5, 1), (5, 5), (6, 1)]
+  if big: grid += [(8, 4), (8, 2), (7, 1), (8, 1), (7, 7)]
   for size, hop in grid:
     for L in ((size + 3, 8) if not big else (size + 3, 9, 12)):
       for via in ("stream", "func"):
         T.append(("h_reconstruct", {"size": size, "hop": hop, "L": L, "via": via}))
   for style in ("direct", "decorator", "partial", "strategy"):
-    for size, hop in ((4, 2), (3, 1), (2, 2), (4, 1)) if not big else grid:
+    for size, hop in ((4, 2), (3, 1), (2, 2), (4, 1), (6, 3), (6, 2)) if not big else grid:
       T.append(("h_stft", {"size": size, "hop": hop, "L": size + 3, "style": style,
                            "wkind": {"direct": "list", "decorator": "callable", "partial": "list", "strategy": "gen"}[style]}))
   T.append(("h_stft_args", {}))
